@@ -297,6 +297,76 @@ pub fn gen_isolate(rng: &mut Rng) -> Program {
     finish(prog, &g)
 }
 
+/// C10 after the maximum is raised: work piles up on several objects while no pool thread is allowed (phase 0, only
+/// non-blocking calls); the public `set_max_threads` then raises the maximum above the number of jobs that will stall a
+/// thread (phase 1).  The stalled objects must not keep the others waiting: the pool may still spawn.
+pub fn gen_isolate_raise(rng: &mut Rng) -> Program {
+    let n_free = rng.range(1, 2) as usize;
+    let n_blocked = rng.range(1, 2) as usize;
+    let n_objs = n_free + n_blocked;
+    let mut g = Gen::new(rng, n_objs);
+    let mut blocking_gates = vec![];
+    let mut thread_blockers = 0;
+    let mut calls: Vec<Vec<Op>> = vec![];
+    for b in 0..n_blocked {
+        let o = n_free + b;
+        let gate = g.n_gates;
+        g.n_gates += 1;
+        blocking_gates.push(gate);
+        let mut c = vec![];
+        if g.rng.permille(700) {
+            thread_blockers += 1;
+            c.push({ let __k = OpKind::Desync { o, body: vec![Step::Yield(1), Step::BlockOn(gate)] }; g.op(__k) });
+        } else {
+            let h = g.handle();
+            c.push({ let __k = OpKind::FutureDesync { o, body: vec![Step::AwaitGate(gate), Step::Yield(1)], h }; g.op(__k) });
+            c.push({ let __k = OpKind::Detach { h }; g.op(__k) });
+        }
+        if g.rng.permille(400) {
+            c.push({ let __k = OpKind::Desync { o, body: vec![] }; g.op(__k) });
+        }
+        calls.push(c);
+    }
+    for o in 0..n_free {
+        let mut c = vec![];
+        for _ in 0..g.rng.range(1, 3) {
+            let y = g.rng.range(0, 2) as u8;
+            let body = if y > 0 { vec![Step::Yield(y)] } else { vec![] };
+            if g.rng.permille(700) {
+                c.push({ let __k = OpKind::Desync { o, body }; g.op(__k) });
+            } else {
+                let h = g.handle();
+                c.push({ let __k = OpKind::FutureDesync { o, body, h }; g.op(__k) });
+                c.push({ let __k = OpKind::Detach { h }; g.op(__k) });
+            }
+        }
+        calls.push(c);
+    }
+    // the order in which the objects enter the schedule is part of the case; one or two calling threads
+    let mut order: Vec<usize> = (0..calls.len()).collect();
+    for i in (1..order.len()).rev() {
+        let j = g.rng.below(i as u64 + 1) as usize;
+        order.swap(i, j);
+    }
+    let two = g.rng.permille(400);
+    let mut threads: Vec<Vec<Op>> = vec![vec![], vec![]];
+    for (k, ci) in order.into_iter().enumerate() {
+        let t = if two { k % 2 } else { 0 };
+        threads[t].extend(calls[ci].clone());
+    }
+    threads.retain(|t| !t.is_empty());
+    let raised = thread_blockers + 1 + g.rng.below(2) as usize;
+    let mut prog = base_program(0, n_objs);
+    let idle = vec![{ let __k = OpKind::Yield(2); g.op(__k) }];
+    prog.phases = vec![
+        Phase { ctl: vec![], threads, env_gates: vec![], env_streams: vec![] },
+        Phase { ctl: vec![CtlOp::SetMaxEager(raised)], threads: vec![idle], env_gates: vec![], env_streams: vec![] },
+    ];
+    prog.blocking_gates = blocking_gates;
+    prog.blocked_objs = (n_free..n_objs).collect();
+    finish(prog, &g)
+}
+
 // ---- C15 --------------------------------------------------------------------------------
 
 /// `variant` selects which kind of operation panics and in which runner context.
